@@ -8,13 +8,26 @@ import (
 // The download reply announces the remaining data length as the file size and, for a file without a stored
 // resource fork, header + remaining data as the transfer size; a preview request gets the bare data size.
 func VH_C08_DownloadReplySizes() {
+	vUnroll(300)
 	e := vNewEnv()
 	e.cc.Account.Access = hotline.AccessBitmap{0xff, 0xff, 0xff, 0xff, 0xff, 0xff, 0xff, 0xff}
 	vAssume(e.fs.exists && !e.fs.isDir)
 	size := vInt("file_size")
 	vAssume(0 <= size && size < 1<<32)
 	e.fs.size = int64(size)
-	fields := []hotline.Field{c05Name, f(hotline.FieldFilePath, vPathField("docs"))}
+	vAssume(!e.fs.infoFork) // header length below is that of a file without stored info fork
+	// the stored name is "target.txt" or a 200-byte name (header longer than 256 bytes)
+	nameLen := 10
+	nameField := c05Name
+	if vBool("long_name") {
+		long := make([]byte, 200)
+		for i := range long {
+			long[i] = 'n'
+		}
+		nameField = f(hotline.FieldFileName, long)
+		nameLen = 200
+	}
+	fields := []hotline.Field{nameField, f(hotline.FieldFilePath, vPathField("docs"))}
 	k := 0
 	if vBool("resume") {
 		k = vInt("resume_offset")
@@ -42,7 +55,7 @@ func VH_C08_DownloadReplySizes() {
 	vAssert("size_fields_present", len(fileSize) == 4 && len(xfer) == 4)
 	vAssert("file_size_is_remaining_data", c08U32(fileSize) == size-k)
 	// header: FILP(24) + INFO hdr(16) + info fork(72 + len("target.txt") + 2) + DATA hdr(16)
-	const headerLen = 24 + 16 + 72 + 10 + 2 + 16
+	headerLen := 24 + 16 + 72 + nameLen + 2 + 16
 	if preview {
 		vAssert("preview_transfer_size_is_bare_data", c08U32(xfer) == size-k)
 	} else {
